@@ -956,6 +956,28 @@ let ghost mut rs: Seq<AstIndex> = seq![rhs0]; let ghost mut operands: Seq<AstInd
         // arithmetic operators go to compile_arithmetic_op: what it guarantees is what a binary arithmetic node gets
         (arith_op_spec(op) is Some && r is Ok) ==> prefix(old(self).g@.trace, final(self).g@.trace) && Self::frame_post(old(self), final(self), old(self).len()),   // @arithmetic_operators_dispatched
 """),
+        # ---- compile_node, arm by arm (rule R13): the `debug` expression
+        Fn(F, "impl Compiler :: fn compile_node", props=("C01", "C12", "C06"), rename="compile_node__debug_arm",
+           fragment=dict(start="let expression_context = match ctx.result_register {", to_block_end=True, prologue="use Op::*;", wrap=("Ok({", "})"),
+                         sig="fn compile_node(&mut self, expression_string: &ConstantIndex, expression: &AstIndex, ctx: CompileNodeContext) -> Result<CompileNodeOutput>"),
+           subst=[("u32::from(*expression_string)", "constant_index_u32(*expression_string)", 1)],
+           spec=r"""
+    requires old(self).g@.spans.len() > 0,
+    ensures
+        // the expression is evaluated where the caller wants it (in a register of its own when the caller wants nothing),
+        // then the Debug instruction on that register with the expression's text
+        r matches Ok(out) ==> ({
+            let t = final(self).g@.trace; let n = old(self).g@.trace.len() as int;
+            t.len() == n + 3 && prefix(old(self).g@.trace, t)
+                && t[n].is_node(*expression, if ctx.result_register is None { ResultRegister::Any } else { ctx.result_register })
+                && t[n + 1].is_spanned_op(Op::Debug, seq![t[n].reg()], Some(old(self).g@.spans.last())) && t[n + 2].is_var(expression_string.0) }),   // @expression_then_the_debug_instruction
+        // C01, the result-register protocol: the caller is told about a temporary exactly when it asked for Any, and
+        // every other register taken on the way is released
+        r matches Ok(out) ==> final(self).g@.regs == old(self).g@.regs + (if out.is_temporary { 1int } else { 0 }),                       // @temporaries_released
+        r matches Ok(out) ==> (out.is_temporary ==> ctx.result_register is Any),
+        r matches Ok(out) ==> (ctx.result_register is None ==> out.register is None),                                                     // @result_request_is_honoured
+        r is Ok ==> Self::frame_post(old(self), final(self), old(self).len()),                                                           // @earlier_code_and_enclosing_loops_untouched
+"""),
     ],
     epilogue=r"""
 // ---- vacuity guard: MUST FAIL
